@@ -115,6 +115,19 @@ Definition judge_prunemulti (c o : sexp) : verdict :=
         (x <- get "remainings" c ;; dec_strss x), get_nat "rc" c, get_raw o with
   | Some trees, Some k, Some rev, Some rems, Some rc, Some raw =>
     let bounds := flat_map (fun tips => reservoir_bounds code_bound k (length tips)) trees in
+    (* the oracle first, on the binary's output alone: every tree keeps exactly min(k, n) of ITS tips
+       (-r), or loses exactly k of them *)
+    let count_ok :=
+        Nat.eqb (length rems) (length trees) &&
+        forallb (fun p => let tips := fst p in let rem := snd p in
+                          ssubset rem tips && Nat.eqb (length (sset rem)) (length rem) &&
+                          Nat.eqb (length rem) (if rev then Nat.min k (length tips) else length tips - k))
+                (combine trees rems) in
+    let small := existsb (fun tips => Nat.ltb (if rev then Nat.min k (length tips) else length tips - k) 3) trees in
+    if Nat.eqb rc 0 && negb small && negb count_ok
+    then VOracle (if rev then "a tree does not keep exactly min(k, n) of its own tips"
+                  else "a tree does not lose exactly k of its own tips")
+    else
     match draws bounds raw with
     | None => VBad "recorded stream too short"
     | Some (cs, _) =>
